@@ -431,6 +431,31 @@ def check_decode(ctx, data, cuts, end, tag, rbufsize=8192, expect=None,
                  split or ending != "clean-eof")
         _judge(ctx, "ChunkReader", tag, frames, how, want, ending, end,
                data, cuts)
+        # ... and with a wsgi.input whose read(n) may return fewer bytes
+        # than asked for (the simulator's cuts, now over the encoded body)
+        if len(data) < 20000:
+            body = b"".join(enc)
+            src = ChunkedStream(body, cuts, end)
+
+            class _In:
+                def read(self, n=-1):
+                    return src.recv(n if n >= 0 else len(body))
+
+                def readline(self):
+                    out = b""
+                    while not out.endswith(b"\n"):
+                        c = src.recv(1)
+                        if not c:
+                            break
+                        out += c
+                    return out
+            cr = ChunkReader(_In())
+            frames, how = dec_receivable(
+                type("S", (), {"recv": staticmethod(cr.read)})(), rbufsize)
+            ctx.case([dh, ch, end, "ChunkedShort", rbufsize],
+                     split or ending != "clean-eof")
+            _judge(ctx, "ChunkReader-short-reads", tag, frames, how, want,
+                   ending, end, data, cuts)
     # the side-band demultiplexer over the same bytes: (channel, data) per
     # frame up to the first flush; a frame without a band byte is a protocol
     # error, never another exception
